@@ -89,9 +89,143 @@ theorem nav_one_spec (sch : Schema) (val : Valuation) (s : State) (h : List Inst
 theorem filter_dedup_commute (p : Nat → Bool) (l : List Nat) :
     dedupFirst (l.filter p) = (dedupFirst l).filter p := dedupFirst_filter p l
 
+/-- de-duplication between steps changes nothing: navigating from a handle WITH duplicates (a generator) gives
+    the same result as from the de-duplicated handle, for one step and for any chain; and a chain that
+    de-duplicates after every step (`chainSeqDedup`) ends in the same sequence as the real one, which keeps
+    duplicates until the final `QuerySet(...)` -/
+theorem nav_dedup_commute (l : List Inst) (f : Inst → List Inst) (fs : List (Inst → List Inst)) (h : List Inst) :
+    dedupFirst ((dedupFirst l).flatMap f) = dedupFirst (l.flatMap f) ∧
+    dedupFirst (chainSeq fs (dedupFirst h)) = dedupFirst (chainSeq fs h) ∧
+    chainSeqDedup fs h = dedupFirst (chainSeq fs h) :=
+  ⟨dedup_flatMap l f, dedup_chainSeq fs h, chainSeqDedup_eq fs h⟩
+
+/-- direct navigation: when the class's `links` dict has an entry under the key (kind, rel, phrase), `navigate`
+    is exactly that entry's partner list -/
+theorem navigate_direct (sch : Schema) (s : State) (x : Inst) (toKind : Kind) (rel phrase : String) (e : LinkEntry)
+    (h : lookupKey (linkDict sch (s.kindOf x)) toKind rel phrase = some e) :
+    navigate sch s x toKind rel phrase = some (followEntry s e x) := navigate_direct' sch s x toKind rel phrase e h
+
+/-- … and which entry that is, in terms of the schema: if the link keys (toKind, rel, phrase) of class `k` are
+    pairwise distinct, the dict is the list of the class's links in definition order, every link is found under
+    its own key, and association number `i` contributes its source_link to its target class (key: source kind,
+    rel, target phrase) and its target_link to its source class (key: target kind, rel, source phrase) -/
+theorem link_dict_spec (sch : Schema) (k : Kind) (hd : KeysDistinct (linkEntriesFrom k 0 sch)) :
+    linkDict sch k = linkEntriesFrom k 0 sch ∧
+    (∀ e ∈ linkEntriesFrom k 0 sch, lookupKey (linkDict sch k) e.toKind e.rel e.phrase = some e) ∧
+    (∀ i a, sch[i]? = some a →
+      (a.tgtKind = k → lookupKey (linkDict sch k) a.srcKind a.rel a.tgtPhrase =
+        some { toKind := a.srcKind, rel := a.rel, phrase := a.tgtPhrase, assoc := i, isSrc := true }) ∧
+      (a.srcKind = k → lookupKey (linkDict sch k) a.tgtKind a.rel a.srcPhrase =
+        some { toKind := a.tgtKind, rel := a.rel, phrase := a.srcPhrase, assoc := i, isSrc := false })) := by
+  have hdict := linkDict_distinct sch k hd
+  refine ⟨hdict, ?_, ?_⟩
+  · intro e he
+    rw [hdict]; exact lookupKey_of_mem _ e hd he
+  · intro i a hi
+    obtain ⟨h1, h2⟩ := mem_linkEntriesFrom k sch 0 i a hi
+    rw [Nat.zero_add] at h1 h2
+    rw [hdict]
+    exact ⟨fun hk => lookupKey_of_mem _ _ hd (h1 hk), fun hk => lookupKey_of_mem _ _ hd (h2 hk)⟩
+
+/-- two-hop navigation (through an association class): when there is no direct entry, `_find_assoc_links` takes
+    the first link `l1` of the class with that rel id and phrase whose far class has an entry `l2` under the
+    requested key; the result is the duplicate-free union, in encounter order, of the second-hop partners of the
+    first-hop partners — i.e. the two-step chain — and it contains `y` exactly when `y` is related to `x` by the
+    relational composition of the two links; without such a pair UnknownLinkException (`none`) -/
+theorem navigate_two_hop (sch : Schema) (s : State) (x : Inst) (toKind : Kind) (rel phrase : String)
+    (hno : lookupKey (linkDict sch (s.kindOf x)) toKind rel phrase = none) :
+    (∀ l1 l2, (linkDict sch (s.kindOf x)).findSome? (assocHop sch toKind rel phrase) = some (l1, l2) →
+      navigate sch s x toKind rel phrase = some (unionAll ((followEntry s l1 x).map (followEntry s l2))) ∧
+      unionAll ((followEntry s l1 x).map (followEntry s l2)) =
+        dedupFirst (chainSeq [followEntry s l1, followEntry s l2] [x]) ∧
+      (unionAll ((followEntry s l1 x).map (followEntry s l2))).Nodup ∧
+      (∀ y, y ∈ unionAll ((followEntry s l1 x).map (followEntry s l2)) ↔
+        ∃ z ∈ followEntry s l1 x, y ∈ followEntry s l2 z) ∧
+      l1 ∈ linkDict sch (s.kindOf x) ∧ l1.rel = rel ∧ l1.phrase = phrase ∧
+      lookupKey (linkDict sch l1.toKind) toKind rel phrase = some l2) ∧
+    ((linkDict sch (s.kindOf x)).findSome? (assocHop sch toKind rel phrase) = none →
+      navigate sch s x toKind rel phrase = none) := by
+  have hnav := navigate_indirect sch s x toKind rel phrase hno
+  constructor
+  · intro l1 l2 hfs
+    rw [hfs] at hnav
+    have hu := unionAll_map (followEntry s l2) (followEntry s l1 x)
+    refine ⟨hnav, ?_, ?_, ?_, ?_⟩
+    · rw [hu]; simp [chainSeq]
+    · rw [hu]; exact nodup_dedupFirst' _
+    · intro y
+      rw [hu, mem_dedupFirst', List.mem_flatMap]
+    · obtain ⟨pre, l, post, hsplit, hl, _⟩ := List.findSome?_eq_some_iff.mp hfs
+      obtain ⟨rfl, h2, h3, h4⟩ := assocHop_some hl
+      exact ⟨by rw [hsplit]; simp, h2, h3, h4⟩
+  · intro hfs
+    rw [hfs] at hnav
+    exact hnav
+
+/-- `navigate_subtype(x, rel)` when no navigation raises: if no link key of the class with that rel id yields an
+    instance the result is `None`; if the keys that yield anything all yield `y` first (in particular when at most
+    one key yields an instance — one supertype instance has one subtype instance) the result is `y` -/
+theorem nav_subtype_spec (sch : Schema) (s : State) (x : Inst) (rel : String) (y : Inst) :
+    ((∀ e ∈ linkDict sch (s.kindOf x), e.rel = rel → navigate sch s x e.toKind rel "" = some []) →
+      navSubtype sch s x rel = some none) ∧
+    ((∀ e ∈ linkDict sch (s.kindOf x), e.rel = rel →
+        ∃ l, navigate sch s x e.toKind rel "" = some l ∧ (l = [] ∨ l.head? = some y)) →
+      (∃ e ∈ linkDict sch (s.kindOf x), e.rel = rel ∧ ∃ l, navigate sch s x e.toKind rel "" = some l ∧ l.head? = some y) →
+      navSubtype sch s x rel = some (some y)) :=
+  ⟨navSubtypeFrom_none sch s x rel _, navSubtypeFrom_some sch s x rel y _⟩
+
+/-- whatever the operators (filters, orderings) and whatever the handle and steps: the results of `select_many`
+    and of `navigate_many(...)…(...)` are duplicate-free -/
+theorem select_many_nodup (sch : Schema) (val : Valuation) (s : State) (k : Kind) (ops : List QOp) (h : List Inst)
+    (steps : List Step) :
+    (selectMany val s k ops).Nodup ∧ ∀ r, navMany sch val s h steps ops = some r → r.Nodup := by
+  refine ⟨nodup_dedupFirst' _, ?_⟩
+  intro r hr
+  unfold navMany at hr
+  cases hn : navSeq sch s h steps with
+  | none => simp [hn] at hr
+  | some l =>
+    simp only [hn, Option.map_some, Option.some.injEq] at hr
+    rw [← hr]; exact nodup_dedupFirst' _
+
 /-! non-vacuity -/
 example : applyOp (fun x _ => some (Int.ofNat (x % 2))) [3, 1, 4, 2, 6] (.orderBy ["P"] false) = [4, 2, 6, 3, 1] := by decide
 example : applyOp (fun x _ => some (Int.ofNat (x % 2))) [3, 1, 4, 2, 6] (.orderBy ["P"] true) = [3, 1, 4, 2, 6] := by decide
 example : Reach [fun x => [x + 1, x + 2], fun x => [x * 2]] 1 6 := ⟨3, by simp, 6, by simp, rfl⟩
+
+
+/-- an association class AB (kind 2) between A (kind 0) and B (kind 1): two associations with the rel id R2 -/
+def mkAssoc (rel : String) (src tgt : Kind) : AssocSpec :=
+  { rel := rel, srcKind := src, srcKeys := [], srcMany := true, srcCond := true, srcPhrase := "",
+    tgtKind := tgt, tgtKeys := [], tgtMany := false, tgtCond := true, tgtPhrase := "" }
+def schAB : Schema := [mkAssoc "R2" 2 0, mkAssoc "R2" 2 1]
+/-- a = 0; ab = 10, 11, 12; b = 20, 21; a—{10, 11, 12}; 10—20, 11—21, 12—20 -/
+def stAB : State :=
+  { init with
+    kindOf := fun x => if x = 0 then 0 else if x < 20 then 2 else 1
+    links := fun i =>
+      if i = 0 then { src := fun x => if x = 0 then [10, 11, 12] else [], tgt := fun x => if 10 ≤ x ∧ x ≤ 12 then [0] else [] }
+      else { src := fun x => if x = 20 then [10, 12] else if x = 21 then [11] else [],
+             tgt := fun x => if x = 10 ∨ x = 12 then [20] else if x = 11 then [21] else [] } }
+
+example : dedupFirst ((dedupFirst [3, 1, 3, 2, 1]).flatMap fun x => [x % 2, x]) = [1, 3, 0, 2] ∧
+    dedupFirst (([3, 1, 3, 2, 1] : List Nat).flatMap fun x => [x % 2, x]) = [1, 3, 0, 2] := by decide
+example : KeysDistinct (linkEntriesFrom 2 0 schAB) ∧ KeysDistinct (linkEntriesFrom 0 0 schAB) := by
+  unfold KeysDistinct; decide
+/-- direct: from a to its association-class instances; from ab 11 to its b -/
+example : navigate schAB stAB 0 2 "R2" "" = some [10, 11, 12] ∧ navigate schAB stAB 11 1 "R2" "" = some [21] := by decide
+/-- two-hop: A has no entry for (B, R2); through AB the union in encounter order, 20 only once -/
+example : lookupKey (linkDict schAB 0) 1 "R2" "" = none ∧ navigate schAB stAB 0 1 "R2" "" = some [20, 21] ∧
+    navigate schAB stAB 0 1 "R9" "" = none := by decide
+/-- supertype S (kind 0) with subtypes T1 (kind 1) and T2 (kind 2) over R3; instance 0 is a T2 (instance 7) -/
+def schSub : Schema := [mkAssoc "R3" 1 0, mkAssoc "R3" 2 0]
+def stSub : State :=
+  { init with
+    kindOf := fun x => if x = 7 then 2 else 0
+    links := fun i => if i = 1 then { src := fun x => if x = 0 then [7] else [], tgt := fun x => if x = 7 then [0] else [] }
+                      else emptyLinks }
+example : navSubtype schSub stSub 0 "R3" = some (some 7) ∧ navSubtype schSub stSub 3 "R3" = some none := by decide
+example : (selectMany (fun x _ => some (Int.ofNat x)) { init with pool := fun _ => [4, 2, 9] } 0
+    [.orderBy ["v"] true, .pred (.geC "v" 3)]) = [9, 4] := by decide
 
 end PyxProps.C09
